@@ -36,6 +36,18 @@ ASSUMPTIONS = [
     "evaluate_new_data of the same term (poly: two later frames), with the call written "
     "positionally, by keyword in both orders, with defaults left out and with values taken from "
     "the evaluation namespace",
+    "calling scope: besides the harness's own scope (which binds no registry name), the formula interface "
+    "is driven from generated calling scopes -- the locals or the globals of a generated caller function, "
+    "or extra_namespace -- that bind the name of the transform under test (always) and the other names "
+    "of formulae.transforms.TRANSFORMS / formulae.categorical.ENCODINGS (each with probability 0.35) to "
+    "unrelated objects (floats, ints, a string, None, a list, arrays, a user class, unrelated functions, "
+    "np.log) or to stateless look-alike functions (center: v - mean(v); scale/standardize: "
+    "(v - mean(v)) / sd(v) with the population or the sample sd; poly: plain powers, QR of the centred "
+    "Vandermonde matrix; bs: two hat functions; each of them also as a function that fits a NEW "
+    "Center/Scale/Polynomial/BSpline on every call); the contracts (training values, later data through "
+    "the TRAINING parameters) are judged by the same Spec.C14 predicates and never depend on the "
+    "bindings; a center/scale term that raises there is a failure only when the same frames are "
+    "transformed from the clean scope",
     "scipy.interpolate.splev is assumed to evaluate the Cox-de Boor recursion on the knot interval "
     "found by FITPACK's search (clamped to [k, n-k-2]); np.percentile is assumed to be linear "
     "interpolation between order statistics; both are checked only through this correspondence",
@@ -450,16 +462,119 @@ def poly_default_spelling(d, raw):
     return f"poly(x, {d}, raw=True)" if raw else f"poly(x, {d})"
 
 
-def impl_formula(call_text, ns, calls):
+# ------------------------------------------------------------------------------------------------
+# calling scopes that bind the registry names (transforms / encodings) to the user's own objects
+# ------------------------------------------------------------------------------------------------
+def _lk_center(v, *a, **k):
+    """a stateless look-alike of `center`: subtracts the mean of whatever it is given"""
+    v = np.asarray(v, dtype=float)
+    return v - v.mean()
+
+
+def _lk_scale_pop(v, *a, **k):
+    """stateless `scale`: mean / population sd of whatever it is given"""
+    v = np.asarray(v, dtype=float)
+    return (v - v.mean()) / v.std()
+
+
+def _lk_scale_sample(v, *a, **k):
+    """stateless `scale` with the sample sd (what pandas' .std() / sklearn-like helpers give)"""
+    v = np.asarray(v, dtype=float)
+    return (v - v.mean()) / v.std(ddof=1)
+
+
+def _lk_fresh(cls_name):
+    """a plain function that fits a NEW instance of the library's class on every call: agrees with
+    the built-in on the training data, re-fits on later data"""
+    def refit(v, *a, **k):
+        from formulae import transforms as T
+        return getattr(T, cls_name)()(np.asarray(v, dtype=float), *a, **k)
+    refit.__name__ = "refit_" + cls_name
+    return refit
+
+
+def _lk_powers(v, degree=1, raw=False, *a, **k):
+    """the user's `poly`: the plain powers, whatever `raw` says"""
+    v = np.asarray(v, dtype=float)
+    return np.column_stack([v ** j for j in range(1, int(degree) + 1)])
+
+
+def _lk_qr_poly(v, degree=1, raw=False, *a, **k):
+    """the user's `poly`: QR of the centred Vandermonde matrix of whatever it is given"""
+    v = np.asarray(v, dtype=float)
+    q, _ = np.linalg.qr(np.vander(v - v.mean(), int(degree) + 1, increasing=True))
+    return q[:, 1:]
+
+
+def _lk_hat(v, *a, **k):
+    """the user's `bs`: two hat functions on the range of whatever it is given"""
+    v = np.asarray(v, dtype=float)
+    t = (v - v.min()) / ((v.max() - v.min()) or 1.0)
+    return np.column_stack([1.0 - t, t])
+
+
+LOOKALIKES = {
+    "center": [("function v - mean(v) (stateless)", lambda n: _lk_center),
+               ("function refitting a new Center", lambda n: _lk_fresh("Center"))],
+    "scale": [("function (v - mean(v)) / sd(v) (stateless, population sd)", lambda n: _lk_scale_pop),
+              ("function (v - mean(v)) / sd(v) (stateless, sample sd)", lambda n: _lk_scale_sample),
+              ("function refitting a new Scale", lambda n: _lk_fresh("Scale"))],
+    "poly": [("function refitting a new Polynomial", lambda n: _lk_fresh("Polynomial")),
+             ("function -> plain powers", lambda n: _lk_powers),
+             ("function -> QR of the centred Vandermonde matrix", lambda n: _lk_qr_poly)],
+    "bs": [("function refitting a new BSpline", lambda n: _lk_fresh("BSpline")),
+           ("function -> two hat functions on the range of its argument", lambda n: _lk_hat)],
+}
+LOOKALIKES["standardize"] = LOOKALIKES["scale"]
+
+
+def _shadow_table():
+    import c16
+    table = dict(c16.SHADOW_OBJECTS)
+    for pool in LOOKALIKES.values():
+        table.update(dict(pool))
+    return table
+
+
+def gen_scope(r, target):
+    """a calling scope for design_matrices: -> {"where": locals / globals of the calling function /
+    extra_namespace, "bound": {registry name: description of the object bound to it}}.  The name of
+    the transform under test is always bound (to a stateless look-alike function or to an unrelated
+    object: number, string, array, None, list, user class, unrelated function); every other name of
+    formulae.transforms.TRANSFORMS / formulae.categorical.ENCODINGS with probability 0.35."""
+    import c16
+    bound = {}
+    for nm in c16.registry_names():
+        if nm != target and r.random() >= 0.35:
+            continue
+        pool = c16.SHADOW_OBJECTS
+        if nm in LOOKALIKES and r.random() < (0.6 if nm == target else 0.5):
+            pool = LOOKALIKES[nm]
+        bound[nm] = r.choice(pool)[0]
+    return {"where": r.choice(["extra_namespace", "caller_locals", "caller_globals"]), "bound": bound}
+
+
+def scope_builder(scope, ns, n_rows):
+    """design_matrices as called from `scope` (None: the harness's own clean scope)"""
+    import c16
+    if scope is None:
+        from formulae import design_matrices
+        return lambda formula, data: design_matrices(formula, data, extra_namespace=ns)
+    table = _shadow_table()
+    objs = {nm: table[d](n_rows) for nm, d in scope["bound"].items()}
+    return c16.make_builder(scope["where"], objs, ns or {})
+
+
+def impl_formula(call_text, ns, calls, scope=None):
     """the same history through design_matrices / evaluate_new_data; returns per call either the
-    matrix of the term (list of rows) or {"err": class}, and per call a snapshot of the instance"""
+    matrix of the term (list of rows) or {"err": class}, and per call a snapshot of the instance.
+    `scope`: the calling scope binds registry names to the user's own objects (see gen_scope)"""
     import pandas as pd
-    from formulae import design_matrices
     outs, snaps = [], []
     x0 = calls[0]
     d = pd.DataFrame({"y": np.arange(len(x0), dtype=float), "x": arr(x0)})
     try:
-        dm = design_matrices("y ~ 0 + " + call_text, d, extra_namespace=ns)
+        dm = scope_builder(scope, ns, len(x0))("y ~ 0 + " + call_text, d)
         common = dm.common
         if call_text not in common.terms and len(common.terms) == 1:
             call_text = list(common.terms)[0]       # the library's own rendering of the call
@@ -567,16 +682,23 @@ def failure(res, case, impl, expected, why, finding=None):
 # ------------------------------------------------------------------------------------------------
 # center / scale
 # ------------------------------------------------------------------------------------------------
-def case_center_scale(run, which, calls, exact, path):
-    """which: 'center' | 'scale' | 'standardize'; calls: list of vectors (Fractions)"""
+def case_center_scale(run, which, calls, exact, path, scope=None):
+    """which: 'center' | 'scale' | 'standardize'; calls: list of vectors (Fractions);
+    `scope`: the calling scope of design_matrices binds registry names (formula path only)"""
     res = run.res
     case = {"t": which, "path": path, "calls": [[str(v) for v in x] for x in calls]}
     cls = "Center" if which == "center" else "Scale"
     if path == "direct":
         outs, st = impl_simple(cls, calls)
     else:
-        outs, _ = impl_formula(f"{which}(x)", None, calls)
-        outs = [o if isinstance(o, dict) else [r[0] for r in o] for o in outs]
+        if scope is not None:
+            case["scope"] = scope
+            res.count("scope:" + scope["where"])
+            res.count(f"scope:{which} bound to " + scope["bound"].get(which, "nothing"))
+        outs, _ = impl_formula(f"{which}(x)", None, calls, scope)
+        outs = [o if isinstance(o, dict) else
+                ([r[0] for r in o] if all(len(r) == 1 for r in o) else {"err": "NOT-ONE-COLUMN"})
+                for o in outs]
         st = None
     res.evaluations += 1
     res.count(f"{which}:{path}")
@@ -585,6 +707,15 @@ def case_center_scale(run, which, calls, exact, path):
         res.count(f"{which}:{path}:error")
         if path == "direct":
             failure(res, case, outs, None, f"{cls} raised on a numeric vector")
+        elif any(isinstance(o, dict) and o.get("err") == "NOT-ONE-COLUMN" for o in outs):
+            failure(res, case, outs, None, f"{which}(x) is not one column")
+        elif scope is not None:
+            # what the calling scope binds is no part of the statement: the same frames, seen from a
+            # scope that binds nothing, decide whether the transform is reached at all
+            clean, _ = impl_formula(f"{which}(x)", None, calls, None)
+            if not any(isinstance(o, dict) for o in clean):
+                failure(res, case, outs, None, f"{which}(x) gives no column (raised / not one column) "
+                        "on numeric vectors that it transforms when the calling scope binds nothing")
         return
     scale_abs = max([1.0] + [abs(fl(v)) for x in calls for v in x])
     tol = 0.0 if (exact and which == "center") else RTOL
@@ -646,7 +777,7 @@ def case_center_scale(run, which, calls, exact, path):
 # ------------------------------------------------------------------------------------------------
 # bs
 # ------------------------------------------------------------------------------------------------
-def case_bs(run, calls, tag, path, spelling="keyword"):
+def case_bs(run, calls, tag, path, spelling="keyword", scope=None):
     """calls: [(x, abstract args)]"""
     res = run.res
     case = {"t": "bs", "path": path, "tag": tag,
@@ -662,7 +793,11 @@ def case_bs(run, calls, tag, path, spelling="keyword"):
         case["spelling"] = spelling
         case["text"] = text
         res.count(f"bs:formula:{spelling}")
-        mats, snaps = impl_formula(text, ns, [x for x, _ in calls])
+        if scope is not None:
+            case["scope"] = scope
+            res.count("scope:" + scope["where"])
+            res.count("scope:bs bound to " + scope["bound"].get("bs", "nothing"))
+        mats, snaps = impl_formula(text, ns, [x for x, _ in calls], scope)
         outs = []
         for m, sn in zip(mats, snaps):
             if isinstance(m, dict):
@@ -789,7 +924,7 @@ def case_bs(run, calls, tag, path, spelling="keyword"):
 # ------------------------------------------------------------------------------------------------
 # poly
 # ------------------------------------------------------------------------------------------------
-def case_poly(run, calls, path, same_args, text=None):
+def case_poly(run, calls, path, same_args, text=None, scope=None):
     """calls: [(x, degree, raw)]; `text`: how the call is written in the formula (formula path)"""
     res = run.res
     case = {"t": "poly", "path": path,
@@ -802,7 +937,11 @@ def case_poly(run, calls, path, same_args, text=None):
         text = text or poly_default_spelling(d0, r0)
         case["text"] = text
         res.count("poly:formula:" + text.replace(str(d0), "D"))
-        mats, _ = impl_formula(text, {"dg": d0, "rw": bool(r0)}, [x for x, _, _ in calls])
+        if scope is not None:
+            case["scope"] = scope
+            res.count("scope:" + scope["where"])
+            res.count("scope:poly bound to " + scope["bound"].get("poly", "nothing"))
+        mats, _ = impl_formula(text, {"dg": d0, "rw": bool(r0)}, [x for x, _, _ in calls], scope)
         outs = [m if isinstance(m, dict) else {"cols": np.asarray(m).T.tolist()} for m in mats]
         calls = calls[:len(outs)]
     res.evaluations += 1
@@ -1004,7 +1143,9 @@ def explore(tier, seed, res=None, replay=None):
     res.rule = ("a case = one transform instance x one history of calls (training vector, then "
                 "later vectors) x one argument combination x one path (direct / formula, the call "
                 "written positionally, by keyword, with defaults left out or with values from the "
-                "namespace); vectors incl. small spreads (rates in [0.01, 0.09]) alone and on an offset; "
+                "namespace; the formula path also from calling scopes (caller locals / caller globals / "
+                "extra_namespace) that bind the registry names of transforms and encodings to unrelated "
+                "objects or stateless look-alike functions); vectors incl. small spreads (rates in [0.01, 0.09]) alone and on an offset; "
                 "bs: also a single explicit bound beyond the data range, with and without interior knots; "
                 "non-trivial = training vector with >= 2 distinct values (center/scale), at least "
                 "one x inside the boundary knots (bs), accepted raw / > degree distinct values "
@@ -1054,6 +1195,9 @@ def explore(tier, seed, res=None, replay=None):
         # the formula path (design_matrices + evaluate_new_data) is ~10x slower than a direct call:
         # thorough exercises it on every second vector
         formula = tier == "quick" or it % 2 == 0
+        # the passes from a calling scope that binds registry names: quick on every vector (one of
+        # center/scale/standardize, bs, poly in turn), thorough on every fourth
+        ks = it if tier == "quick" else (it // 4 if it % 4 == 0 else None)
         # ---- center / scale --------------------------------------------------------------------
         x, style = gen_vector(rng, exact_mean=True)
         if rng.random() < 0.03:
@@ -1068,6 +1212,12 @@ def explore(tier, seed, res=None, replay=None):
         if formula and it % 3 == 0 and len(x) >= 2:
             which = ("center", "scale", "standardize")[(it // 3) % 3]
             case_center_scale(run, which, [x] + [l for l in later if l], True, "formula")
+        if ks is not None and ks % 2 == 1 and len(x) >= 2:
+            # the same contracts when design_matrices is called from a scope that binds the registry
+            # names (own random stream; the expected result never depends on the bindings)
+            which = ("scale", "center", "standardize")[(ks // 2) % 3]
+            case_center_scale(run, which, [x] + [l for l in later if l], True, "formula",
+                              gen_scope(rng_for(seed, "c14", "scope", "cs", it), which))
         if it % 4 == 0:      # inexact mean: tolerance comparison
             y, _ = gen_vector(rng, exact_mean=False)
             case_center_scale(run, "center", [y, gen_new(rng, y)], False, "direct")
@@ -1083,6 +1233,10 @@ def explore(tier, seed, res=None, replay=None):
             case_bs(run, [(x, a), (later, a2)], tag, "direct")
             if j == 0 and formula:
                 case_bs(run, [(x, a), (later, a)], tag, "formula", rng_sp.choice(BS_SPELLINGS))
+            if j == 1 and ks is not None and ks % 3 == 0:
+                rsc = rng_for(seed, "c14", "scope", "bs", it)
+                case_bs(run, [(x, a), (later, a)], tag, "formula", rsc.choice(BS_SPELLINGS),
+                        gen_scope(rsc, "bs"))
         for j in range(3):
             a, tag = gen_bs_args(rng, x, valid=False)
             case_bs(run, [(x, a), (later, a)], tag, "direct")
@@ -1115,6 +1269,10 @@ def explore(tier, seed, res=None, replay=None):
                 # re-evaluates the term once more), in one of the spellings of the same call
                 case_poly(run, [(x, d, raw), (later, d, raw), (gen_new(rng_sp, x, scaled=True), d, raw)],
                           "formula", True, rng_sp.choice(poly_spellings(d, raw)))
+            if j == 2 and len(x) >= 2 and ks is not None and ks % 3 == 1:
+                rsc = rng_for(seed, "c14", "scope", "poly", it)
+                case_poly(run, [(x, d, raw), (later, d, raw), (gen_new(rsc, x, scaled=True), d, raw)],
+                          "formula", True, rsc.choice(poly_spellings(d, raw)), gen_scope(rsc, "poly"))
         # direct API with changing arguments: degree/raw are overwritten, alpha/norms2 memoised
         d1, d2 = rng.randrange(0, 5), rng.randrange(0, 7)
         case_poly(run, [(x, d1, rng.random() < 0.3), (later + x, d2, rng.random() < 0.3),
@@ -1133,14 +1291,14 @@ def replay_case(run, c):
     t = c.get("t")
     if t in ("center", "scale", "standardize"):
         calls = [[parse_frac(v) for v in x] for x in c["calls"]]
-        case_center_scale(run, t, calls, True, c.get("path", "direct"))
+        case_center_scale(run, t, calls, True, c.get("path", "direct"), c.get("scope"))
     elif t == "bs":
         calls = []
         for cc in c["calls"]:
             a = {k: eval(v, {"Fraction": F}) for k, v in cc["args"].items()}  # repr of plain values
             calls.append(([parse_frac(v) for v in cc["x"]], a))
         case_bs(run, calls, c.get("tag", "replay"), c.get("path", "direct"),
-                c.get("spelling", "keyword"))
+                c.get("spelling", "keyword"), c.get("scope"))
     elif t == "poly":
         calls = [([parse_frac(v) for v in cc["x"]], cc["degree"], cc["raw"]) for cc in c["calls"]]
-        case_poly(run, calls, c.get("path", "direct"), True, c.get("text"))
+        case_poly(run, calls, c.get("path", "direct"), True, c.get("text"), c.get("scope"))
